@@ -24,7 +24,7 @@ func (a *Adapter) runSchedule(init json.RawMessage, sch []Sched) bool {
 		panic(err)
 	}
 	for _, s := range sch {
-		if a.run.Done(s.T - 1) {
+		if a.run.Done(s.T-1) || !a.enabled(s.T-1) {
 			continue
 		}
 		if _, err := a.StepN(s.T-1, s.N); err != nil {
@@ -36,6 +36,15 @@ func (a *Adapter) runSchedule(init json.RawMessage, sch []Sched) bool {
 		a.hist = append(a.hist, p)
 	}
 	return true
+}
+
+func (a *Adapter) enabled(t int) bool {
+	for _, e := range a.run.Enabled() {
+		if e == t {
+			return true
+		}
+	}
+	return false
 }
 
 // ExploreFrom enumerates continuations of a schedule prefix breadth-first by length (every
@@ -109,6 +118,13 @@ func (a *Adapter) Sample(init json.RawMessage, rng *rand.Rand, maxSteps int) (st
 			prio = rng.Perm(n)
 		}
 		en := a.run.Enabled()
+		if len(en) == 0 {
+			a.hist = append(a.hist, map[string]interface{}{"ev": "deadlock"})
+			a.flushHist()
+			a.run.Abort()
+			a.run = nil
+			return steps, false
+		}
 		var pref []int
 		for _, t := range en {
 			if a.run.Kind(t) != "yield" {
